@@ -1006,6 +1006,14 @@ impl H {
                        ("out", if r.is_ok() { jt("ok") } else { jp() })]);
     }
 
+    /// Leak a runtime-borrow guard (safe code: `mem::forget`). Nothing observable changes for the
+    /// `&mut` API; the harness stops using borrow-based paths on this world afterwards.
+    pub fn op_leak(&mut self, wi: usize, ai: usize, col: usize, mutable: bool) {
+        let w = self.worlds[wi].as_ref().unwrap();
+        let r = guard(|| with_arch!(ai, A => A::leak_guard(w, col, mutable)));
+        self.emit(vec![("op", J::s("noop")), ("what", J::s("leak_guard")), ("w", ji(wi)), ("a", ji(ai)), ("leaked", J::B(r.is_ok()))]);
+    }
+
     pub fn op_drop(&mut self, wi: usize, fault: Option<u32>) {
         reg::with(|r| r.drop_fault = fault);
         let w = self.worlds[wi].take().unwrap();
